@@ -86,14 +86,17 @@ class Uni:
     physical value shape = the entry of vsub / usub); "sym": symmetric 2x2 tensor element (entry
     (2, 2), reference value size 3); "curl": covariant Piola mapped vector element (reference value
     shape (tdim,) = (2,), physical value shape (gdim,)).  gdim: geometric dimension of the mesh
-    (3: a triangle mesh immersed in 3D)."""
+    (3: a triangle mesh immersed in 3D).
+    sides = 2: the universe of an interior facet (spec: Sides): the slots of the value vectors are listed
+    twice ('+' traces, then '-' traces), restrictions (rp / rm) and dS integrals (keys 5, 6) exist."""
 
     SUB_KINDS = ("P", "sym", "curl")
 
     def __init__(self, name, mixed, vsub, usub, coefs, ops, maxnodes, formops, keypairs=(), lits=(("two", 2),), udeg=1, complex_env=True, simulate=None, depth=None, exclude=(), nenv=2, pre=(), uplain=False, wrapidx=False,
-                 vkinds=None, ukinds=None, gdim=2):
+                 vkinds=None, ukinds=None, gdim=2, sides=1):
         self.name = name
         self.gdim = gdim
+        self.sides = sides
         self.vkinds = list(vkinds) if vkinds else ["P"] * len(vsub)
         self.ukinds = list(ukinds) if ukinds else ["P"] * len(usub or [])
         self.wrapidx = wrapidx  # sampled programs also index Variable / Conj / Real / Imag nodes (exhaustive universes always do)
@@ -122,14 +125,14 @@ class Uni:
             coefs=[[n, list(s)] for n, s in self.coefs], ops=sorted(self.ops), maxnodes=self.maxnodes, formops=sorted(self.formops),
             keypairs=[list(k) for k in self.keypairs], lits=[[n, v] for n, v in self.lits], udeg=self.udeg, complex_env=self.complex_env,
             exclude=sorted(self.exclude), nenv=self.nenv, pre=[[op, list(a), list(mi)] for op, a, mi in self.pre], uplain=self.uplain, wrapidx=self.wrapidx,
-            vkinds=list(self.vkinds), ukinds=list(self.ukinds), gdim=self.gdim,
+            vkinds=list(self.vkinds), ukinds=list(self.ukinds), gdim=self.gdim, sides=self.sides,
         )
 
     @staticmethod
     def from_json(d):
         return Uni(d["name"], d["mixed"], d["vsub"], d["usub"], d["coefs"], d["ops"], d["maxnodes"], d["formops"], d["keypairs"],
                    [tuple(x) for x in d["lits"]], d["udeg"], d["complex_env"], exclude=d.get("exclude", ()), nenv=d.get("nenv", 2), pre=d.get("pre", ()), uplain=d.get("uplain", False), wrapidx=d.get("wrapidx", False),
-                   vkinds=d.get("vkinds"), ukinds=d.get("ukinds"), gdim=d.get("gdim", 2))
+                   vkinds=d.get("vkinds"), ukinds=d.get("ukinds"), gdim=d.get("gdim", 2), sides=d.get("sides", 1))
 
     # ---- derived layout --------------------------------------------------------------------
     @staticmethod
@@ -260,6 +263,10 @@ class Uni:
             else:
                 for p, sh in enumerate(subs):
                     parts.extend([p + 1] * self._size(sh))
+        # an interior facet: the '+' traces of all components, then their '-' traces
+        self.nvh, self.nuh = len(self.vslot), len(self.uslot)
+        for lst in (self.vslot, self.uslot, self.vpart, self.upart):
+            lst.extend(list(lst) * (self.sides - 1))
         self.nv, self.nu = len(self.vslot), len(self.uslot)
         self.kv = len(self.vsub)
         self.ku = len(self.usub) if self.usub is not None else 1
@@ -358,6 +365,7 @@ def mc_cfg(uni, ascoded, invariants=PROPERTY_INVS, dump=True, offset_by="physica
         "USub <- c_USub",
         f'OffsetBy = "{offset_by}"',
         "Programs <- c_Programs",
+        f"Sides = {uni.sides}",
         "SPECIFICATION Spec",
     ]
     lines += [f"INVARIANT {i}" for i in invariants]
@@ -380,11 +388,12 @@ def run_tlc(uni, seed, ascoded=False, invariants=PROPERTY_INVS, dump=True, timeo
     return coefval, res
 
 
-UNARY = ("neg", "abs", "conj", "real", "imag", "var")
+UNARY = ("neg", "abs", "conj", "real", "imag", "var", "rp", "rm")
+FACET_KEYS = (5, 6)
 BINARY = ("add", "sub", "mul", "div", "pow", "inner", "dot", "outer", "list", "isum")
 # mirrors of IndexableOps / FreeIndexableOps (operands that ufl indexes without rewriting them)
-INDEXABLE = ("arg", "coef", "outer", "var", "conj", "real", "imag")
-FREE_INDEXABLE = ("arg", "coef", "var", "conj", "real", "imag", "list")
+INDEXABLE = ("arg", "coef", "outer", "var", "conj", "real", "imag", "rp", "rm")
+FREE_INDEXABLE = ("arg", "coef", "var", "conj", "real", "imag", "list", "rp", "rm")
 
 
 def sample_programs(uni, seed, n):
@@ -395,11 +404,13 @@ def sample_programs(uni, seed, n):
     shapes0 = [sh for _, _, _, sh in uni.args] + [sh for _, sh in uni.allcoefs] + [() for _ in uni.lits]
     kinds0 = ["arg"] * len(uni.args) + ["coef"] * len(uni.allcoefs) + ["lit"] * len(uni.lits)
     degs0 = [frozenset({(1, 0) if num == 0 else (0, 1)}) for _, num, _, _ in uni.args] + [frozenset({(0, 0)})] * (len(uni.allcoefs) + len(uni.lits))
+    rst0 = ["free"] * (len(uni.args) + len(uni.allcoefs)) + ["lit"] * len(uni.lits)  # mirror of the nodes' `rs`
     for op, args, mi in uni.prelude:
         xs = [shapes0[i - 1] for i in args]
         shapes0.append(_op_shape(op, xs))
         kinds0.append(op)
         degs0.append(_op_degs(op, [degs0[i - 1] for i in args]))
+        rst0.append(_op_rs(op, [rst0[i - 1] for i in args]))
     pure = uni.formops == {"extract_blocks"}  # only purely bilinear / linear forms are block-extracted
     ops = sorted(uni.ops)
     maxd = uni.depth or uni.maxnodes
@@ -408,7 +419,7 @@ def sample_programs(uni, seed, n):
     tries = 0
     while len(out) < n and tries < 60 * n:
         tries += 1
-        shapes, kinds, degs = list(shapes0), list(kinds0), list(degs0)
+        shapes, kinds, degs, rst = list(shapes0), list(kinds0), list(degs0), list(rst0)
         prog = []
         unused = []
         depth = rng.randint(2, maxd)
@@ -429,7 +440,7 @@ def sample_programs(uni, seed, n):
                 elif op == "index":
                     a = [pick()]
                     sh = shapes[a[0] - 1]
-                    if not sh or kinds[a[0] - 1] not in (INDEXABLE if uni.wrapidx else INDEXABLE[:3]):
+                    if not sh or kinds[a[0] - 1] not in (INDEXABLE if uni.wrapidx else INDEXABLE[:3] + (("rp", "rm") if uni.sides == 2 else ())):
                         continue
                     mi = [rng.randrange(d) for d in sh]
                 else:
@@ -437,6 +448,9 @@ def sample_programs(uni, seed, n):
                     mi = []
                 sh = _op_shape(op, [shapes[i - 1] for i in a])
                 if sh is None:
+                    continue
+                rs = _op_rs(op, [rst[i - 1] for i in a])
+                if rs is None:
                     continue
                 if op == "pow" and not (kinds[a[1] - 1] == "lit"):
                     continue
@@ -455,6 +469,7 @@ def sample_programs(uni, seed, n):
                 shapes.append(sh)
                 kinds.append(op)
                 degs.append(dg)
+                rst.append(rs)
                 nid = len(shapes)
                 unused = [u for u in unused if u not in a] + [nid]
                 break
@@ -467,10 +482,14 @@ def sample_programs(uni, seed, n):
             continue
         if not pure and rng.random() < 0.6 and not degs[last - 1] <= {(0, 0), (1, 0), (1, 1)}:
             continue  # favour forms of the property's class
-        if uni.keypairs and rng.random() < 0.35:
-            cands = [u for u in unused if u != last and shapes[u - 1] == () and (not pure or degs[u - 1] == degs[last - 1])]
+        facet = rst[last - 1] == "done"  # an integrand of interior facet integrals (mirror of KeyOk)
+        pairs = [kp for kp in uni.keypairs if (kp[1] in FACET_KEYS) == facet]
+        if pairs and rng.random() < 0.35:
+            pfacet = {kp[0] in FACET_KEYS for kp in pairs}
+            cands = [u for u in unused if u != last and shapes[u - 1] == () and (not pure or degs[u - 1] == degs[last - 1]) and (rst[u - 1] == "done") in pfacet]
             if cands:
                 roots = [rng.choice(cands), last]
+                pairs = [kp for kp in pairs if (kp[0] in FACET_KEYS) == (rst[roots[0] - 1] == "done")]
         # drop nodes that no root uses, renumber
         live = set()
         stack = list(roots)
@@ -488,10 +507,10 @@ def sample_programs(uni, seed, n):
                 nd = prog[i - uni.ninit - 1]
                 newprog.append({"op": nd["op"], "args": [ren.get(x, x) for x in nd["args"]], "mi": nd["mi"]})
         if len(roots) == 2:
-            kp = rng.choice(uni.keypairs)
+            kp = rng.choice(pairs)
             ints = [{"key": kp[0], "root": ren[roots[0]]}, {"key": kp[1], "root": ren[roots[1]]}]
         else:
-            ints = [{"key": 1, "root": ren[last]}]
+            ints = [{"key": 5 if facet else 1, "root": ren[last]}]
         key = json.dumps([newprog, ints])
         if key in seen or len(newprog) < 2:
             continue
@@ -506,7 +525,7 @@ def _op_degs(op, ds):
     Z, NL = frozenset({(0, 0)}), frozenset({(3, 3)})
     if op in ("add", "sub"):
         return A | B
-    if op in ("neg", "conj", "real", "imag", "var", "index"):
+    if op in ("neg", "conj", "real", "imag", "var", "index", "rp", "rm"):
         return A
     if op in ("mul", "inner", "dot", "outer", "isum"):
         return frozenset((min(a[0] + b[0], 3), min(a[1] + b[1], 3)) for a in A for b in B)
@@ -521,12 +540,21 @@ def _op_degs(op, ds):
     raise MachineryError(f"no degrees for {op}")
 
 
+def _op_rs(op, rss):
+    """restriction state of the result, or None when the constructor refuses (mirror of OpRs / RsOk)"""
+    if op in ("rp", "rm"):
+        return "done" if rss[0] == "free" else None
+    if "done" in rss:
+        return None if "free" in rss else "done"
+    return "free" if "free" in rss else "lit"
+
+
 def _op_shape(op, xs):
     """result shape of a constructor or None when the shapes do not fit (mirror of OpSh / OkNode)"""
     x, y = xs[0], xs[-1]
     if op in ("add", "sub"):
         return x if x == y else None
-    if op in ("neg", "conj", "real", "imag", "var"):
+    if op in ("neg", "conj", "real", "imag", "var", "rp", "rm"):
         return x
     if op == "abs":
         return x if x == () else None
@@ -555,7 +583,9 @@ def _op_shape(op, xs):
 # The world of real objects for a universe
 # --------------------------------------------------------------------------------------------
 
-MEASURE_KEYS = {1: ("cell", "everywhere"), 2: ("exterior_facet", "everywhere"), 3: ("cell", 1), 4: ("cell", 2)}
+MEASURE_KEYS = {1: ("cell", "everywhere"), 2: ("exterior_facet", "everywhere"), 3: ("cell", 1), 4: ("cell", 2),
+                5: ("interior_facet", "everywhere"), 6: ("interior_facet", 1)}
+SIDE_NAMES = ("+", "-")
 
 
 class World:
@@ -583,7 +613,7 @@ class World:
         def space(sh, deg=1, kind="P"):
             return ufl.FunctionSpace(mesh, element(sh, deg, kind))
 
-        self.measures = {1: ufl.dx, 2: ufl.ds, 3: ufl.dx(1), 4: ufl.dx(2)}
+        self.measures = {1: ufl.dx, 2: ufl.ds, 3: ufl.dx(1), 4: ufl.dx(2), 5: ufl.dS, 6: ufl.dS(1)}
         # spaces of the two sides
         self.subspaces = {}
         self.side_space = {}
@@ -636,9 +666,14 @@ class World:
         # coefficient environments
         self.coefval = coefval
         self.envs = [{obj: coefval[e][k] for k, obj in enumerate(self.coefobj)} for e in range(uni.nenv)]
-        # slots: argument key -> list of (slot index (1-based), component)
-        self.vslots = [(self.argobj[a - 1], c) for a, c in uni.vslot]
-        self.uslots = [(self.argobj[a - 1], c) for a, c in uni.uslot]
+        # the traces of the coefficients on the sides of an interior facet (spec: CoefNode): '+' the value of the
+        # environment, '-' the value in the next environment
+        self.senvs = None
+        if uni.sides == 2:
+            self.senvs = [{(obj, sd): coefval[(e + d) % uni.nenv][k] for k, obj in enumerate(self.coefobj) for d, sd in enumerate(SIDE_NAMES)} for e in range(uni.nenv)]
+        # slots: (argument, component) per position of the value vector; on an interior facet (argument, component, side)
+        self.vslots = [(self.argobj[a - 1], c) + ((SIDE_NAMES[s // uni.nvh],) if uni.sides == 2 else ()) for s, (a, c) in enumerate(uni.vslot)]
+        self.uslots = [(self.argobj[a - 1], c) + ((SIDE_NAMES[s // uni.nuh],) if uni.sides == 2 else ()) for s, (a, c) in enumerate(uni.uslot)]
         self.cache = {}
         self.fcache = {}
 
@@ -665,6 +700,10 @@ class World:
             return getattr(ufl, op)(*args)
         if op == "var":
             return ufl.variable(a)
+        if op == "rp":
+            return a("+")
+        if op == "rm":
+            return a("-")
         if op == "index":
             return a[tuple(int(m) for m in mi)]
         if op == "isum":
@@ -716,6 +755,8 @@ class World:
                 names.append(f"({a[0]} {sym[op]} {a[1]})")
             elif op == "neg":
                 names.append(f"(-{a[0]})")
+            elif op in ("rp", "rm"):
+                names.append(f"{a[0]}('{'+' if op == 'rp' else '-'}')")
             elif op == "index":
                 names.append(f"{a[0]}[{','.join(map(str, n['mi']))}]")
             elif op == "isum":
@@ -724,7 +765,7 @@ class World:
                 names.append("[" + ",".join(a) + "]")
             else:
                 names.append(f"{op}({', '.join(a)})")
-        ms = {1: "dx", 2: "ds", 3: "dx(1)", 4: "dx(2)"}
+        ms = {1: "dx", 2: "ds", 3: "dx(1)", 4: "dx(2)", 5: "dS", 6: "dS(1)"}
         return " + ".join(f"{names[it['root'] - 1]}*{ms[it['key']]}" for it in rec["ints"])
 
 
@@ -755,12 +796,32 @@ def argkey(a):
 
 class Slots:
     """rows / cols: list of (argument key, component) per slot, 1-based positions.  An argument of
-    the assembled form that has no slot is 'foreign'."""
+    the assembled form that has no slot is 'foreign'.  Slots given as (argument, component, side)
+    are the traces on the sides '+' / '-' of an interior facet: at such a slot the trace of the
+    argument on that side is the unit vector and its trace on the other side is zero (its
+    unrestricted value, read by cell and exterior facet integrals, is the unit vector)."""
 
     def __init__(self, rows, cols):
-        self.rows = [(argkey(a), tuple(c)) for a, c in rows]
-        self.cols = [(argkey(a), tuple(c)) for a, c in cols]
+        self.rows = [(argkey(r[0]), tuple(r[1])) for r in rows]
+        self.cols = [(argkey(r[0]), tuple(r[1])) for r in cols]
+        self.rside = [r[2] if len(r) > 2 else None for r in rows]
+        self.cside = [r[2] if len(r) > 2 else None for r in cols]
+        self.sided = any(sd is not None for sd in self.rside + self.cside)
         self.keys = {k for k, _ in self.rows} | {k for k, _ in self.cols}
+
+    def sided_tables(self, args, i, j):
+        """{(argument object, side): value table} at point (i, j)"""
+        vals = {}
+        for a in args:
+            k = argkey(a)
+            for sd in SIDE_NAMES:
+                tab = {c: Cx(0) for c in comps(a.ufl_shape)}
+                if i > 0 and self.rows[i - 1][0] == k and self.rside[i - 1] == sd:
+                    tab[self.rows[i - 1][1]] = Cx(1)
+                if j > 0 and self.cols[j - 1][0] == k and self.cside[j - 1] == sd:
+                    tab[self.cols[j - 1][1]] = Cx(1)
+                vals[(a, sd)] = tab
+        return vals
 
     def tables(self, args, i, j, override=None):
         """value tables of the argument objects at point (i, j)"""
@@ -779,12 +840,13 @@ class Slots:
         return vals
 
 
-def assemble(form, envs, slots, override=None, point=None):
+def assemble(form, envs, slots, override=None, point=None, senvs=None):
     """{key: [e][i][j] -> Cx | None}; key = (integral type, subdomain id).  `form` may be None, 0 or an
     empty form (the zero table).  Raises ForeignArgument when the form contains an argument
     outside `slots`.  `override`: {argkey: env index -> value table} substitutes a value for an
     argument.  `point`: (row values, col values): evaluate at one generic point instead of the unit
-    grid; the result is then [e] -> Cx."""
+    grid; the result is then [e] -> Cx.  `senvs`: per environment {(coefficient, side): value table},
+    the traces of the coefficients (with slots that name sides)."""
     nr, nc = len(slots.rows), len(slots.cols)
     out = {}
     if form is None or isinstance(form, (int, float)):
@@ -832,7 +894,11 @@ def assemble(form, envs, slots, override=None, point=None):
                         continue
                     vals = dict(cenv)
                     vals.update(slots.tables(args, i, j, ov))
-                    grid[i][j] = _ev(e_, vals)
+                    sided = None
+                    if slots.sided:
+                        sided = dict(senvs[e]) if senvs else {}
+                        sided.update(slots.sided_tables(args, i, j))
+                    grid[i][j] = _ev(e_, vals, sided)
             tabs.append(grid)
         if key in out:
             out[key] = _add_tabs(out[key], tabs, point is not None)
@@ -847,9 +913,9 @@ class ForeignArgument(Exception):
         self.arg = a
 
 
-def _ev(expr, vals):
+def _ev(expr, vals, sided=None):
     try:
-        return Evaluator(TermEnv(vals)).ev(expr, (), {})
+        return Evaluator(TermEnv(vals, sided=sided)).ev(expr, (), {})
     except (Undefined, ZeroDivisionError, OverflowError):
         return None
 
